@@ -168,6 +168,29 @@ def run_blackbox(tier, only_case=None):
                 accepted.append({"id": -i, "line": line, "meas": name, "invalid": True})
             st, body = srv.write("c06", "ok%d f=1 1\n%s" % (i, line))
             rep["evaluations"] += 1
+        # field-set pairs: two points of ONE series written one after the other (before any flush) whose field sets
+        # differ in every way (first key, last key, count) - each value must come back under the key it was written with
+        FSETS = [("hum", "temp"), ("dew", "temp"), ("hum", "zed"), ("temp",), ("dew",), ("dew", "hum", "temp"), ("a", "b"), ("b", "c")]
+        pair_cases = []
+        if not only_case:
+            pi = 0
+            for s1 in FSETS:
+                for s2 in FSETS:
+                    if s1 == s2:
+                        continue
+                    pi += 1
+                    name = "p%d" % pi
+                    rows = []
+                    for ri, fs in enumerate((s1, s2)):
+                        vals = {f: float(pi * 100 + ri * 10 + k) + 0.25 for k, f in enumerate(fs)}
+                        ts = 1700000000000000000 + ri
+                        line = "%s,host=a %s %d" % (name, ",".join("%s=%r" % (f, v) for f, v in vals.items()), ts)
+                        st, body = srv.write("c06", line)
+                        rep["evaluations"] += 1
+                        if st != 204:
+                            vio("valid_line_rejected", line, "HTTP %s: %s" % (st, body[:200]), {"line": line})
+                        rows.append((ts, vals))
+                    pair_cases.append((name, rows))
         # visibility barrier: the last accepted measurement must be queryable
         if accepted:
             last = [c for c in accepted if not c.get("invalid")][-1]
@@ -230,6 +253,24 @@ def run_blackbox(tier, only_case=None):
                     if c["ftype"] == "int" and len(problems) == 1 and "field" in problems[0] and int(float(c["fval"])) != c["fval"]:
                         kind = "int_not_float64_exact"
                     vio(kind, "|" + c["line"], "; ".join(problems), c)
+        def rdp(pc):
+            st, js = srv.query('select * from "%s"' % pc[0], db="c06")
+            return pc, st, js
+        with ThreadPoolExecutor(8) as ex:
+            for (name, rows), st, js in ex.map(rdp, pair_cases):
+                rep["evaluations"] += 1
+                series = (js or {}).get("results", [{}])[0].get("series") if st == 200 else None
+                key = "pair %s: %s" % (name, " ; ".join(",".join("%s=%r" % kv for kv in v.items()) for _, v in rows))
+                if not series:
+                    vio("accepted_point_not_returned", key, "status %s answer %s" % (st, json.dumps(js)[:300]), {"pair": name})
+                    continue
+                rep["_distinct"].add(hash(("pair", key)) & (2**63 - 1))
+                cols = series[0]["columns"]
+                got = {r[0]: {c: v for c, v in zip(cols[1:], r[1:]) if v is not None and c != "host"} for r in series[0]["values"]}
+                exp = {ts: vals for ts, vals in rows}
+                if got != exp:
+                    vio("value_under_wrong_field_key", key, "returned %s, written %s" % (json.dumps(got, sort_keys=True), json.dumps(exp, sort_keys=True)), {"pair": name})
+        rep["counters"]["blackbox_field_set_pairs"] = len(pair_cases)
         rep["counters"]["blackbox_cases"] = len(cases)
         rep["counters"]["blackbox_accepted"] = len(accepted)
     except blackbox.ToolError as e:
